@@ -154,6 +154,14 @@ def run_plain_sequence(algo, O, S, leafmap, costs, policies):
     """the policies in turn on ONE input object -> list of (error, [(key, cost)])"""
     inp, onode, snode = A.build_input(O, S, leafmap, costs)
     outs = []
+    # a sibling input on the SAME tree objects and LCA structure, under another cost vector (transfers forbidden, or allowed
+    # if they already are forbidden), is solved first - as in a cost sweep that builds one input per vector over shared trees
+    other = (0, 1, 1, 1, 1) if costs[2] == INF else (costs[0], costs[1], INF, costs[3], costs[4])
+    sibling = type(inp)(inp.object_tree, inp.species_lca, dict(inp.leaf_object_species), A.cost_dict(other))
+    try:
+        list(L.PLAIN[algo](sibling, A.POLICY["ALL"]))
+    except Exception:
+        pass
     for policy in policies:
         try:
             res = list(L.PLAIN[algo](inp, A.POLICY[policy]))
